@@ -386,7 +386,157 @@ def generate():
     return '\n'.join(lines) + '\n'
 
 
+# ---------------------------------------------------------------- translator to coq/PyAst.v
+BINOPS = {ast.Add: '+', ast.Sub: '-', ast.Mult: '*', ast.Div: '/', ast.Pow: '**'}
+CMPOPS = {ast.Eq: '==', ast.NotEq: '!=', ast.Lt: '<', ast.Gt: '>', ast.LtE: '<=', ast.GtE: '>='}
+
+
+class Translator:
+    def __init__(self, where):
+        self.where = where
+        self.self_fields = []
+
+    def fail(self, what, node=None):
+        raise TieError('cannot translate %s in %s: %s' % (what, self.where, ast.dump(node)[:120] if node is not None else ''))
+
+    def z(self, n):
+        return '(%d)%%Z' % n
+
+    def expr(self, e):
+        if isinstance(e, ast.Name):
+            return '(EName %s)' % coq_str(e.id)
+        if isinstance(e, ast.Constant):
+            v = e.value
+            if isinstance(v, bool):
+                self.fail('bool literal', e)
+            if isinstance(v, int):
+                return '(EInt %s)' % self.z(v)
+            if isinstance(v, float) and v.is_integer() and abs(v) < 2 ** 53:
+                return '(EFloatLit %s)' % self.z(int(v))
+            self.fail('literal', e)
+        if isinstance(e, ast.Attribute):
+            if isinstance(e.value, ast.Name) and e.value.id == 'math' and e.attr == 'e':
+                return 'EMathE'
+            if isinstance(e.value, ast.Name) and e.value.id == 'self' and e.attr in ('n', 'base'):
+                name = 'self.' + e.attr
+                if name not in self.self_fields:
+                    self.self_fields.append(name)
+                return '(EName %s)' % coq_str(name)
+            self.fail('attribute', e)
+        if isinstance(e, ast.UnaryOp) and isinstance(e.op, ast.USub):
+            return '(ENeg %s)' % self.expr(e.operand)
+        if isinstance(e, ast.BinOp) and type(e.op) in BINOPS:
+            return '(EBin %s %s %s)' % (coq_str(BINOPS[type(e.op)]), self.expr(e.left), self.expr(e.right))
+        if isinstance(e, ast.Call) and not e.keywords:
+            f = e.func
+            if isinstance(f, ast.Name) and f.id == 'float' and len(e.args) == 1:
+                return '(EFloat %s)' % self.expr(e.args[0])
+            if isinstance(f, ast.Name) and f.id == 'sum' and len(e.args) == 1:
+                return '(ESum %s)' % self.expr(e.args[0])
+            if isinstance(f, ast.Attribute) and isinstance(f.value, ast.Name) and f.value.id == 'math':
+                if f.attr in ('sqrt', 'cbrt', 'cos', 'sin') and len(e.args) == 1:
+                    return '(EMath1 %s %s)' % (coq_str(f.attr), self.expr(e.args[0]))
+                if f.attr == 'log' and len(e.args) == 2:
+                    return '(ELog2 %s %s)' % (self.expr(e.args[0]), self.expr(e.args[1]))
+        self.fail('expression', e)
+
+    def cond(self, c):
+        if isinstance(c, ast.Compare) and len(c.ops) == 1 and type(c.ops[0]) in CMPOPS:
+            return '(CCmp %s %s %s)' % (coq_str(CMPOPS[type(c.ops[0])]), self.expr(c.left), self.expr(c.comparators[0]))
+        if isinstance(c, ast.Call) and isinstance(c.func, ast.Attribute) and isinstance(c.func.value, ast.Name) \
+                and c.func.value.id == 'util' and c.func.attr == 'is_even' and len(c.args) == 1:
+            return '(CIsEven %s)' % self.expr(c.args[0])
+        if isinstance(c, ast.BoolOp) and isinstance(c.op, ast.And):
+            out = self.cond(c.values[-1])
+            for v in reversed(c.values[:-1]):
+                out = '(CAnd %s %s)' % (self.cond(v), out)
+            return out
+        self.fail('condition', c)
+
+    def block(self, stmts):
+        return coq_list([self.stmt(s) for s in stmts
+                         if not (isinstance(s, ast.Expr) and isinstance(s.value, ast.Constant))])
+
+    def stmt(self, s):
+        if isinstance(s, ast.Return):
+            if s.value is None:
+                self.fail('bare return', s)
+            return '(SReturn %s)' % self.expr(s.value)
+        if isinstance(s, ast.Raise):
+            exc = s.exc
+            if isinstance(exc, ast.Call) and isinstance(exc.func, ast.Attribute) and exc.func.attr == 'DomainError':
+                return 'SRaiseDomain'
+            self.fail('raise', s)
+        if isinstance(s, ast.Pass):
+            return 'SPass'
+        if isinstance(s, ast.If):
+            return '(SIf %s %s %s)' % (self.cond(s.test), self.block(s.body), self.block(s.orelse))
+        if isinstance(s, ast.Assign) and len(s.targets) == 1 and isinstance(s.targets[0], ast.Name):
+            return '(SAssign %s %s)' % (coq_str(s.targets[0].id), self.expr(s.value))
+        if isinstance(s, ast.AugAssign) and isinstance(s.target, ast.Name) and isinstance(s.op, ast.Mult):
+            return '(SAugMul %s %s)' % (coq_str(s.target.id), self.expr(s.value))
+        if isinstance(s, ast.For) and isinstance(s.target, ast.Name) and isinstance(s.iter, ast.Name) and not s.orelse:
+            return '(SFor %s %s %s)' % (coq_str(s.target.id), coq_str(s.iter.id), self.block(s.body))
+        self.fail('statement', s)
+
+    def function(self, fd):
+        a = fd.args
+        if a.kwonlyargs or a.kwarg or a.posonlyargs:
+            self.fail('parameters', fd)
+        params = []
+        for p in a.args:
+            if p.arg == 'self':
+                continue
+            is_int = isinstance(p.annotation, ast.Name) and p.annotation.id == 'int'
+            params.append((p.arg, is_int))
+        if a.vararg:
+            params.append(('*' + a.vararg.arg, False))
+        body = self.block(fd.body)
+        for f in self.self_fields:
+            params.append((f, f == 'self.n'))
+        ps = coq_list(['(%s, %s)' % (coq_str(n), 'true' if i else 'false') for n, i in params])
+        return '{| f_params := %s; f_body := %s |}' % (ps, body)
+
+
+def generate_math():
+    lines = ['(* GENERATED by harness/tie_extract.py: the current source of math_functions.py and of the',
+             '   _verify_domain_constraints methods, translated into PyAst.pfun -- do not edit *)',
+             'From Coq Require Import ZArith List String.', 'From SM Require Import PyAst.',
+             'Import ListNotations.', 'Open Scope string_scope.', '']
+    t = parse(os.path.join(SRC, '_private', 'math_functions.py'))
+    for node in t.body:
+        if isinstance(node, ast.FunctionDef):
+            tr = Translator('math_functions.' + node.name)
+            lines.append('Definition gen_mf_%s : pfun := %s.' % (node.name, tr.function(node)))
+    for fn in EXPR_FILES:
+        t = parse(os.path.join(SRC, '_private', 'expression', fn + '.py'))
+        for cls in classes_of(t):
+            for m in methods_of(cls):
+                if m.name == '_verify_domain_constraints':
+                    tr = Translator('%s._verify_domain_constraints' % cls.name)
+                    lines.append('Definition gen_verify_%s : pfun := %s.' % (cls.name, tr.function(m)))
+    return '\n'.join(lines) + '\n'
+
+
+def write_if_changed(path, text):
+    old = open(path).read() if os.path.exists(path) else None
+    if old != text:
+        with open(path, 'w') as f:
+            f.write(text)
+        return True
+    return False
+
+
 def main():
+    coqdir = os.path.join(os.path.dirname(os.path.dirname(os.path.abspath(__file__))), 'coq')
+    try:
+        mtext = generate_math()
+    except (TieError, SyntaxError, OSError) as ex:
+        mtext = ('(* GENERATED: the translator FAILED CLOSED: %s *)\n'
+                 'Definition translator_failed : False := I.\n') % str(ex).replace('*)', '* )')
+        print('TIE-TRANSLATE-FAILED: %s' % ex)
+    if write_if_changed(os.path.join(coqdir, 'GeneratedMath.v'), mtext):
+        print('GeneratedMath.v rewritten')
     out = sys.argv[1] if len(sys.argv) > 1 else os.path.join(os.path.dirname(os.path.dirname(os.path.abspath(__file__))), 'coq', 'Generated.v')
     try:
         text = generate()
